@@ -97,6 +97,9 @@ def check_c03(tier):
     _neg_wr(rep, "C03", cases)
     rep.assumptions = ["URLs carry no fragment or userinfo; b1 bundles have a primary URL; header names ASCII tokens unique after case folding; values visible ASCII; status 100..999",
                        "the byte-identical fixpoint is not claimed for bundles with multi-key Variant-Key entries"]
+    # instances of tens of MiB (thresholds in buffering / chunking code): Trace_Huge
+    from huge_checks import huge
+    huge(rep, "C03", "bundle")
     return rep.finish()
 
 
@@ -127,7 +130,7 @@ def check_c05(tier):
                        "bundles under bit flips / truncation / insert / delete at every offset and random byte strings; Trace_Bundle requires: Extract=ok => "
                        "accepted with exactly the content at the indexed locations; Extract=err => rejected with an error; never a panic. "
                        "distinct_nontrivial = distinct files")
-    r = tlc("MC_BundleRead", "SPECIFICATION Spec\nCONSTANTS Bases = {1, 2, 3, 4, 5, 6, 7}\nINVARIANTS UnmutatedReads UnknownSkipped OutOfBoundsRefused Bounded\nCHECK_DEADLOCK FALSE\n",
+    r = tlc("MC_BundleRead", "SPECIFICATION Spec\nCONSTANTS Bases = {1, 2, 3, 4, 5, 6, 7, 8}\nINVARIANTS UnmutatedReads UnknownSkipped OutOfBoundsRefused Bounded\nCHECK_DEADLOCK FALSE\n",
             "C05/mc", timeout=3000)
     rep.add_tlc("MC_BundleRead", r)
     wd = workdir("C05")
